@@ -16,6 +16,7 @@ import (
 	"go/token"
 	"os"
 	"path/filepath"
+	"reflect"
 	"strconv"
 	"strings"
 )
@@ -116,16 +117,8 @@ func findUnsupported(name string, src []byte) []string {
 	}
 	ast.Inspect(f, func(n ast.Node) bool {
 		switch x := n.(type) {
-		case *ast.ChanType:
-			add(x, "channel type")
-		case *ast.SendStmt:
-			add(x, "channel send")
 		case *ast.SelectStmt:
 			add(x, "select statement")
-		case *ast.UnaryExpr:
-			if x.Op == token.ARROW {
-				add(x, "channel receive")
-			}
 		case *ast.CallExpr:
 			if sel, ok := x.Fun.(*ast.SelectorExpr); ok {
 				if id, ok := sel.X.(*ast.Ident); ok && id.Name == "time" {
@@ -139,6 +132,117 @@ func findUnsupported(name string, src []byte) []string {
 		return true
 	})
 	return out
+}
+
+// rewriteChans replaces channel types and operations by the scheduler's channel model
+// (verifsched.Chan): chan T, make(chan T[, n]), c <- v, <-c, v, ok := <-c and close(c).
+// It works on syntax alone; len, cap and range over a channel are not rewritten (the instrumented
+// build then fails to compile and the caller skips the controlled exploration).
+func rewriteChans(f *ast.File) int {
+	n := 0
+	sel := func(name string) ast.Expr {
+		return &ast.SelectorExpr{X: ast.NewIdent("verifsched"), Sel: ast.NewIdent(name)}
+	}
+	method := func(x ast.Expr, name string, args ...ast.Expr) *ast.CallExpr {
+		return &ast.CallExpr{Fun: &ast.SelectorExpr{X: &ast.ParenExpr{X: x}, Sel: ast.NewIdent(name)}, Args: args}
+	}
+	var expr func(e ast.Expr) ast.Expr
+	expr = func(e ast.Expr) ast.Expr {
+		switch x := e.(type) {
+		case *ast.ChanType:
+			n++
+			return &ast.StarExpr{X: &ast.IndexExpr{X: sel("Chan"), Index: x.Value}}
+		case *ast.CallExpr:
+			if id, ok := x.Fun.(*ast.Ident); ok {
+				if id.Name == "make" && len(x.Args) >= 1 {
+					if st, ok := x.Args[0].(*ast.StarExpr); ok { // already rewritten (post-order)
+						if ix, ok := st.X.(*ast.IndexExpr); ok {
+							if s2, ok := ix.X.(*ast.SelectorExpr); ok && s2.Sel.Name == "Chan" {
+								var size ast.Expr = &ast.BasicLit{Kind: token.INT, Value: "0"}
+								if len(x.Args) > 1 {
+									size = x.Args[1]
+								}
+								return &ast.CallExpr{Fun: &ast.IndexExpr{X: sel("MakeChan"), Index: ix.Index}, Args: []ast.Expr{size}}
+							}
+						}
+					}
+				}
+				if id.Name == "close" && len(x.Args) == 1 {
+					n++
+					return &ast.CallExpr{Fun: sel("CloseChan"), Args: x.Args}
+				}
+			}
+		case *ast.UnaryExpr:
+			if x.Op == token.ARROW {
+				n++
+				return method(x.X, "Recv")
+			}
+		}
+		return e
+	}
+	stmt := func(s ast.Stmt) ast.Stmt {
+		switch x := s.(type) {
+		case *ast.SendStmt:
+			n++
+			return &ast.ExprStmt{X: method(x.Chan, "Send", x.Value)}
+		case *ast.AssignStmt:
+			if len(x.Lhs) == 2 && len(x.Rhs) == 1 {
+				if c, ok := x.Rhs[0].(*ast.CallExpr); ok {
+					if s2, ok := c.Fun.(*ast.SelectorExpr); ok && s2.Sel.Name == "Recv" && len(c.Args) == 0 {
+						if _, ok := s2.X.(*ast.ParenExpr); ok {
+							s2.Sel = ast.NewIdent("Recv2")
+						}
+					}
+				}
+			}
+		}
+		return s
+	}
+	exprT := reflect.TypeOf((*ast.Expr)(nil)).Elem()
+	stmtT := reflect.TypeOf((*ast.Stmt)(nil)).Elem()
+	var walk func(v reflect.Value)
+	walk = func(v reflect.Value) {
+		switch v.Kind() {
+		case reflect.Ptr, reflect.Interface:
+			if !v.IsNil() {
+				walk(v.Elem())
+			}
+		case reflect.Slice:
+			for i := 0; i < v.Len(); i++ {
+				el := v.Index(i)
+				walk(el)
+				replace(el, exprT, stmtT, expr, stmt)
+			}
+		case reflect.Struct:
+			if v.Type() == reflect.TypeOf(ast.Object{}) || v.Type() == reflect.TypeOf(ast.Scope{}) {
+				return
+			}
+			for i := 0; i < v.NumField(); i++ {
+				fl := v.Field(i)
+				if !fl.CanSet() {
+					continue
+				}
+				walk(fl)
+				replace(fl, exprT, stmtT, expr, stmt)
+			}
+		}
+	}
+	for _, d := range f.Decls {
+		walk(reflect.ValueOf(d))
+	}
+	return n
+}
+
+func replace(v reflect.Value, exprT, stmtT reflect.Type, expr func(ast.Expr) ast.Expr, stmt func(ast.Stmt) ast.Stmt) {
+	if v.Kind() != reflect.Interface || v.IsNil() {
+		return
+	}
+	switch v.Type() {
+	case exprT:
+		v.Set(reflect.ValueOf(expr(v.Interface().(ast.Expr))))
+	case stmtT:
+		v.Set(reflect.ValueOf(stmt(v.Interface().(ast.Stmt))))
+	}
 }
 
 func fatal(err error) {
@@ -213,7 +317,8 @@ func rewrite(name string, src []byte) ([]byte, int, int, error) {
 		}
 		return true
 	})
-	if nGo > 0 {
+	nChan := rewriteChans(f)
+	if nGo > 0 || nChan > 0 {
 		// add the scheduler import
 		spec := &ast.ImportSpec{Path: &ast.BasicLit{Kind: token.STRING, Value: strconv.Quote("golang.org/x/mod/verifsched")}}
 		for _, d := range f.Decls {
